@@ -401,3 +401,57 @@ func discardEventsAdds(adds []*addOp, ct clip.ClipType, fr clip.FillRule) []disc
 	}()
 	return tris
 }
+
+// anchorShift picks a notable point of the given path sets - a vertex or the rounded intersection of two edges - and
+// returns the translation that moves it onto the origin (in one case in five only onto one axis, nearly). Used by the
+// fresh families of several properties for a fraction of their cases: zero-valued coordinates, and zero values used
+// as "unset", live there and random positions practically never produce them.
+func anchorShift(r *gen.Rng, closedSets []Paths, openSets []Paths) (dx, dy int64) {
+	var pts []Pt
+	var segs [][2]Pt
+	add := func(ps Paths, closed bool) {
+		for _, p := range ps {
+			pts = append(pts, p...)
+			for i := 0; i+1 < len(p); i++ {
+				segs = append(segs, [2]Pt{p[i], p[i+1]})
+			}
+			if closed && len(p) > 2 {
+				segs = append(segs, [2]Pt{p[len(p)-1], p[0]})
+			}
+		}
+	}
+	for _, s := range closedSets {
+		add(s, true)
+	}
+	for _, s := range openSets {
+		add(s, false)
+	}
+	if len(pts) == 0 {
+		return 0, 0
+	}
+	a := pts[r.Intn(len(pts))]
+	if len(segs) > 1 && len(segs) <= 400 && r.Chance(0.6) {
+		var xs []Pt
+		for i := 0; i < len(segs) && len(xs) < 100; i++ {
+			for j := i + 1; j < len(segs); j++ {
+				if segs[i][0] == segs[j][0] || segs[i][0] == segs[j][1] || segs[i][1] == segs[j][0] || segs[i][1] == segs[j][1] {
+					continue
+				}
+				if x, y, ok := oracle.SegSegIntersectF(segs[i][0], segs[i][1], segs[j][0], segs[j][1]); ok {
+					xs = append(xs, Pt{X: int64(math.Round(x)), Y: int64(math.Round(y))})
+				}
+			}
+		}
+		if len(xs) > 0 {
+			a = xs[r.Intn(len(xs))]
+		}
+	}
+	dx, dy = -a.X, -a.Y
+	switch r.Intn(5) {
+	case 0:
+		dx += r.Range(-3, 3)
+	case 1:
+		dy += r.Range(-3, 3)
+	}
+	return
+}
